@@ -13,7 +13,7 @@ import (
 
 func init() { Registry["C11"] = runC11 }
 
-const explanationC11 = "Decides structural necessary conditions of C11 on eval.RunDSL and its helpers: (R11.1) phase barrier — in RunDSL's CFG no call of a later phase (prepare/validate/finalize, by resolved callee or by the function value passed to WalkSets) can reach a call of an earlier phase, each later phase calls both the root-level set and WalkSets, and ranges over the whole root list obtained from Context.Roots; (R11.2) the Context.Errors gates sit between phases (everything that reaches a gate is of a strictly earlier phase than everything its nil branch reaches), execute→prepare and validate→finalize are separated by such a gate, and the error of Roots() is returned before any phase call; (R11.3) the four set runners have no break/return inside their range loops, validateSet records after its loop, Context.Record appends; (R11.4) each runner asserts its own interface and calls that interface's method; (R11.5) the execute loop re-reads Context.Roots() so that roots registered during execution are picked up and the later phases range over that re-read list; (R11.6) the dependency callbacks passed to sortDependencies depend on their argument; (R11.7) sortDependenciesR appends a root after recursing into its dependencies; (R11.8) every dependency flattening gets a visited set of its own (none shared across the loop over the roots); (R11.9) the cycle check skips only the pair of a root with itself; (R11.10) sortDependenciesR tests the dependency it descends into; (R11.11) runSet counts every element its inner loop consumes. NOT decided: that Roots() returns a topological order and detects every cycle for every graph (a semantic claim about an algorithm over all graphs), termination, and what DSL functions do."
+const explanationC11 = "Decides structural necessary conditions of C11 on eval.RunDSL and its helpers: (R11.1) phase barrier — in RunDSL's CFG no call of a later phase (prepare/validate/finalize, by resolved callee or by the function value passed to WalkSets) can reach a call of an earlier phase, each later phase calls both the root-level set and WalkSets, and ranges over the whole root list obtained from Context.Roots; (R11.2) the Context.Errors gates sit between phases (everything that reaches a gate is of a strictly earlier phase than everything its nil branch reaches), execute→prepare and validate→finalize are separated by such a gate, and the error of Roots() is returned before any phase call; (R11.3) the four set runners have no break/return inside their range loops, validateSet records after its loop, Context.Record appends; (R11.4) each runner asserts its own interface and calls that interface's method; (R11.5) the execute loop re-reads Context.Roots() so that roots registered during execution are picked up and the later phases range over that re-read list; (R11.6) the dependency callbacks passed to sortDependencies depend on their argument; (R11.7) sortDependenciesR appends a root after recursing into its dependencies; (R11.8) every dependency flattening gets a visited set of its own (none shared across the loop over the roots); (R11.9) the cycle check skips only the pair of a root with itself; (R11.10) sortDependenciesR tests the dependency it descends into; (R11.11) runSet counts every element its inner loop consumes. (R11.12) every package-level variable of package eval that is written during evaluation is re-initialised by Reset. (R11.13) every DependsOn returns its list unconditionally (the roots are ordered before anything is evaluated). NOT decided: that Roots() returns a topological order and detects every cycle for every graph (a semantic claim about an algorithm over all graphs), termination, and what DSL functions do."
 
 var phaseRunners = map[string]int{"runSet": 0, "prepareSet": 1, "validateSet": 2, "finalizeSet": 3}
 var phaseNames = []string{"execute", "prepare", "validate", "finalize"}
@@ -46,6 +46,8 @@ func runC11(c *an.Ctx) string {
 	r11Roots(c)
 	r11RootsLoops(c)
 	r11Progress(c)
+	r11ResetState(c)
+	r11StaticDependencies(c, "R11.13")
 	return explanationC11
 }
 
@@ -945,4 +947,117 @@ func r11Progress(c *an.Ctx) {
 		})
 		c.Floor("R11.11", n, 1, "resumable loops in runSet")
 	}
+}
+
+// r11ResetState (R11.12): one evaluation must not see the state of the previous one. Every package-level variable
+// of package eval that some function writes (assigns, indexes into, appends to) is re-initialised by eval.Reset:
+// a table that is filled during RunDSL and survives Reset makes the phases of a later evaluation skip or repeat
+// work ("already finalized").
+func r11ResetState(c *an.Ctx) {
+	const rule = "R11.12"
+	p := c.Pkg("eval")
+	reset := c.MustFunc(rule, "eval", "Reset")
+	if p == nil || reset == nil {
+		return
+	}
+	info := p.TypesInfo
+	isGlobal := func(e ast.Expr) *types.Var {
+		id := an.RootIdent(e)
+		if id == nil {
+			return nil
+		}
+		v, ok := an.ObjOf(info, id).(*types.Var)
+		if !ok || v.Pkg() != p.Types || v.Parent() != p.Types.Scope() {
+			return nil
+		}
+		return v
+	}
+	resetVars := map[*types.Var]bool{}
+	ast.Inspect(reset.Decl.Body, func(n ast.Node) bool {
+		if as, ok := n.(*ast.AssignStmt); ok {
+			for _, l := range as.Lhs {
+				if id, ok := an.Unparen(l).(*ast.Ident); ok {
+					if v := isGlobal(id); v != nil {
+						resetVars[v] = true
+					}
+				}
+			}
+		}
+		return true
+	})
+	written := map[*types.Var]string{}
+	for _, f := range c.AllFuncs("eval") {
+		if f == reset || f.Obj.Name() == "init" {
+			continue
+		}
+		ast.Inspect(f.Decl.Body, func(n ast.Node) bool {
+			switch x := n.(type) {
+			case *ast.AssignStmt:
+				for _, l := range x.Lhs {
+					if v := isGlobal(l); v != nil {
+						if _, seen := written[v]; !seen {
+							written[v] = c.Position(x.Pos())
+						}
+					}
+				}
+			case *ast.IncDecStmt:
+				if v := isGlobal(x.X); v != nil {
+					written[v] = c.Position(x.Pos())
+				}
+			case *ast.CallExpr:
+				if id, ok := an.Unparen(x.Fun).(*ast.Ident); ok && (id.Name == "delete" || id.Name == "clear") && len(x.Args) > 0 {
+					if v := isGlobal(x.Args[0]); v != nil {
+						written[v] = c.Position(x.Pos())
+					}
+				}
+			}
+			return true
+		})
+	}
+	n := 0
+	for v, where := range written {
+		n++
+		// state reached through a variable that Reset replaces (Context.roots …) is reset with it
+		c.Check(resetVars[v], rule, "eval."+v.Name(), v.Pos(), "written during evaluation and re-initialised by Reset", "package-level variable "+v.Name()+" is written at "+where+" but eval.Reset does not re-initialise it: its contents survive into the next evaluation of the same process")
+	}
+	c.Floor(rule, n, 1, "package-level variables of package eval written during evaluation")
+}
+
+// r11StaticDependencies (R11.13): the order of the roots is computed from DependsOn while nothing has been evaluated
+// yet (eval.Context.Roots sorts on registration and before the first phase). A DependsOn that consults the state
+// of its root answers for the empty state and the dependency is lost exactly when it matters. Every DependsOn of the
+// module therefore has one path, without a condition: it returns the same list whatever has been evaluated.
+func r11StaticDependencies(c *an.Ctx, rule string) {
+	n := 0
+	for _, d := range c.ModuleDirs() {
+		for _, f := range c.AllFuncs(d) {
+			if f.Decl.Recv == nil || f.Decl.Name.Name != "DependsOn" || f.Decl.Type.Params.NumFields() != 0 {
+				continue
+			}
+			fn := c.SSAFunc(f)
+			if fn == nil {
+				continue
+			}
+			if res := fn.Signature.Results(); res.Len() != 1 || !strings.HasSuffix(res.At(0).Type().String(), "eval.Root") {
+				continue
+			}
+			n++
+			t := an.BuildPathTable(fn, an.PathOpts{})
+			c.Stats["paths_enumerated"] += len(t.Paths)
+			c.Stats["functions_tabled"]++
+			if len(t.Paths) == 1 && len(t.Paths[0].Atoms) == 0 {
+				c.Okf(rule, c.RefName(f), "one unconditional path: the dependencies do not depend on what has been evaluated (returns %s)", strings.Join(t.Paths[0].Ret, ","))
+				continue
+			}
+			cond := ""
+			for _, p := range t.Paths {
+				if len(p.Atoms) > 0 {
+					cond = p.GuardString()
+					break
+				}
+			}
+			c.Failf(rule, c.RefName(f), f.Decl.Pos(), "DependsOn decides under a condition [%s]: the roots are ordered before anything is evaluated, so the answer given for the empty state is the one that orders every run", cond)
+		}
+	}
+	c.Floor(rule, n, 2, "DependsOn implementations")
 }
